@@ -51,6 +51,7 @@ type Contract struct {
 	Stable   []string             // locations assumed untouched by unknown calls (justified by an encapsulation rule)
 	OnCall   map[string][]*Clause // parameter name -> assertions that must hold whenever it is called
 	AtCall   map[string][]*Clause // callee name (funcKey, or its method name) -> assertions at each call of it
+	AtSend   []*Clause            // assertions at each channel send of the function (sent = the value, ch = the channel)
 }
 
 type GhostDecl struct {
@@ -141,7 +142,7 @@ var clauseKeywords = map[string]bool{
 	"prop": true, "requires": true, "ensures": true, "ensures_panic": true, "modifies": true,
 	"loop": true, "nopanic": true, "maypanic": true, "arith": true, "pure": true, "inline": true,
 	"flag": true, "params": true, "results": true, "let": true, "noinline": true, "havoc": true, "stable": true,
-	"oncall": true, "atcall": true,
+	"oncall": true, "atcall": true, "atsend": true,
 }
 
 var blockKeywords = map[string]bool{
@@ -400,6 +401,15 @@ func (cs *ContractSet) parseFile(path, pkg string, requirePrefix bool) error {
 					cur.AtCall = map[string][]*Clause{}
 				}
 				cur.AtCall[f[0]] = append(cur.AtCall[f[0]], c)
+				curClause = c
+			case "atsend":
+				c := &Clause{Kind: "atsend", File: path, Line: ln}
+				if m := labelRe.FindStringSubmatch(rest); m != nil {
+					c.Label = m[1]
+					rest = rest[len(m[0]):]
+				}
+				c.Text = rest
+				cur.AtSend = append(cur.AtSend, c)
 				curClause = c
 			case "oncall":
 				f := strings.Fields(rest)
